@@ -89,7 +89,6 @@ func registerIntrinsics2(e *Engine) {
 			return strings.ReplaceAll(n[0].(string), n[1].(string), n[2].(string))
 		})
 	}
-	I["strings.TrimPrefix"] = func(e *Engine, fr *frame, a []Value) Value { return strings.TrimPrefix(e.cs(a[0]), e.cs(a[1])) }
 	I["strings.HasPrefix"] = func(e *Engine, fr *frame, a []Value) Value {
 		if c, ok := a[0].(*ChoiceStr); ok {
 			p := e.cs(a[1])
@@ -97,7 +96,6 @@ func registerIntrinsics2(e *Engine) {
 		}
 		return strings.HasPrefix(e.cs(a[0]), e.cs(a[1]))
 	}
-	I["strings.HasSuffix"] = func(e *Engine, fr *frame, a []Value) Value { return strings.HasSuffix(e.cs(a[0]), e.cs(a[1])) }
 	I["strings.Count"] = func(e *Engine, fr *frame, a []Value) Value {
 		if r, ok := a[0].(*Rope); ok {
 			sep, ok := a[1].(string)
@@ -124,7 +122,6 @@ func registerIntrinsics2(e *Engine) {
 		return int64(strings.Count(e.cs(a[0]), e.cs(a[1])))
 	}
 	I["strings.Index"] = func(e *Engine, fr *frame, a []Value) Value { return int64(strings.Index(e.cs(a[0]), e.cs(a[1]))) }
-	I["strings.ToUpper"] = func(e *Engine, fr *frame, a []Value) Value { return strings.ToUpper(e.cs(a[0])) }
 	I["strconv.Itoa"] = func(e *Engine, fr *frame, a []Value) Value { return strconv.Itoa(int(a[0].(int64))) }
 	I["strconv.Atoi"] = func(e *Engine, fr *frame, a []Value) Value {
 		v, err := strconv.Atoi(e.cs(a[0]))
@@ -179,16 +176,50 @@ func registerIntrinsics2(e *Engine) {
 		return filepath.Join(ss...)
 	}
 	I["path/filepath.Glob"] = func(e *Engine, fr *frame, a []Value) Value {
-		m, err := filepath.Glob(e.cs(a[0]))
-		if err != nil {
-			return Tuple{Slice{}, e.errorValue(err.Error())}
+		pat := e.cs(a[0])
+		seen := map[string]bool{}
+		var out []string
+		if !e.vfsOnly(pat) {
+			m, err := filepath.Glob(e.realPath(pat))
+			if err != nil {
+				return Tuple{Slice{}, e.errorValue(err.Error())}
+			}
+			for _, p := range m {
+				rel := e.relPath(p)
+				if _, shadow := e.vfs[rel]; !shadow {
+					seen[rel] = true
+					out = append(out, rel)
+				}
+			}
 		}
-		return Tuple{mkStrSlice(m), Iface{}}
+		for p, c := range e.vfs {
+			if c == vfsDeleted {
+				continue
+			}
+			if ok, _ := filepath.Match(pat, p); ok && !seen[p] {
+				out = append(out, p)
+			}
+		}
+		sort.Strings(out)
+		if e.globOrder != nil {
+			out = e.globOrder(out)
+		}
+		return Tuple{mkStrSlice(out), Iface{}}
 	}
 	I["os.ReadFile"] = func(e *Engine, fr *frame, a []Value) Value {
-		b, err := os.ReadFile(e.cs(a[0]))
+		p := e.cs(a[0])
+		if c, ok := e.vfs[filepath.Clean(p)]; ok {
+			if c == vfsDeleted {
+				return Tuple{Slice{}, e.pathErr("open", p)}
+			}
+			return Tuple{mkBytes([]byte(c)), Iface{}}
+		}
+		if e.vfsOnly(p) {
+			return Tuple{Slice{}, e.pathErr("open", p)}
+		}
+		b, err := os.ReadFile(e.realPath(p))
 		if err != nil {
-			return Tuple{Slice{}, e.pathErr("open", e.cs(a[0]))}
+			return Tuple{Slice{}, e.pathErr("open", p)}
 		}
 		return Tuple{mkBytes(b), Iface{}}
 	}
@@ -345,3 +376,33 @@ func (e *Engine) sortFunc(fr *frame, a []Value) Value {
 }
 
 var _ = ssa.NaiveForm
+
+const vfsDeleted = "\x00<deleted>"
+
+// realPath maps a path used by the code under test to the real file system: relative paths
+// are resolved against the engine's root directory (the directory that holds .ti-config).
+func (e *Engine) realPath(p string) string {
+	if filepath.IsAbs(p) || e.fsRoot == "" {
+		return p
+	}
+	return filepath.Join(e.fsRoot, p)
+}
+
+func (e *Engine) relPath(p string) string {
+	if e.fsRoot != "" {
+		if r, err := filepath.Rel(e.fsRoot, p); err == nil && !strings.HasPrefix(r, "..") {
+			return r
+		}
+	}
+	return p
+}
+
+// vfsOnly: paths under a virtual-only prefix never fall through to the real file system.
+func (e *Engine) vfsOnly(p string) bool {
+	for _, pre := range e.vfsOnlyPrefixes {
+		if strings.HasPrefix(filepath.Clean(p), pre) {
+			return true
+		}
+	}
+	return false
+}
